@@ -34,9 +34,9 @@ func parseAvpTag(tag reflect.StructTag) (string, bool) {
 
 	name = tag.Get("avp")
 	if idx := strings.Index(name, ","); idx != -1 {
-		return name[:idx], false
+		return name[:idx], name[idx:] == ",omitempty"
 	}
-	return name, true
+	return name, false
 }
 
 func isEmptyValue(v reflect.Value) bool {
